@@ -5,17 +5,20 @@ import os, subprocess, sys, json, time
 patch, props = sys.argv[1], sys.argv[2].split(",")
 tier = sys.argv[3] if len(sys.argv) > 3 else "quick"
 V = os.path.dirname(os.path.dirname(os.path.abspath(__file__)))
-st = subprocess.run(["git", "-C", "/repo", "status", "--porcelain", "--untracked-files=no"], stdout=subprocess.PIPE, text=True).stdout
+# SEED_REPO: a scratch worktree of /repo for parallel measurement waves (the registered checks always use /repo itself)
+REPO = os.environ.get("SEED_REPO", "/repo")
+ENV = dict(os.environ, VERIF_REPO=REPO) if REPO != "/repo" else dict(os.environ)
+st = subprocess.run(["git", "-C", REPO, "status", "--porcelain", "--untracked-files=no"], stdout=subprocess.PIPE, text=True).stdout
 if st.strip():
-    print("REFUSING: /repo has local modifications:\n" + st); sys.exit(3)
-r = subprocess.run(["git", "-C", "/repo", "apply", "--whitespace=nowarn", os.path.abspath(patch)], stdout=subprocess.PIPE, stderr=subprocess.STDOUT, text=True)
+    print("REFUSING: " + REPO + " has local modifications:\n" + st); sys.exit(3)
+r = subprocess.run(["git", "-C", REPO, "apply", "--whitespace=nowarn", os.path.abspath(patch)], stdout=subprocess.PIPE, stderr=subprocess.STDOUT, text=True)
 if r.returncode != 0:
     print("PATCH DOES NOT APPLY:", r.stdout); sys.exit(3)
 res = {}
 try:
     for p in props:
         t0 = time.time()
-        c = subprocess.run([os.path.join(V, "bin", "check"), p, tier], stdout=subprocess.PIPE, stderr=subprocess.STDOUT, text=True, cwd=V)
+        c = subprocess.run([os.path.join(V, "bin", "check"), p, tier], stdout=subprocess.PIPE, stderr=subprocess.STDOUT, text=True, cwd=V, env=ENV)
         lines = [l for l in c.stdout.splitlines() if l.startswith("VIOLATION") or l.startswith("KNOWN-FINDING") or l.startswith("BROKEN")]
         first = ""
         out = c.stdout.splitlines()
@@ -26,8 +29,8 @@ try:
         if c.returncode == 2:
             res[p]["broken"] = c.stdout[-800:]
 finally:
-    subprocess.run(["git", "-C", "/repo", "checkout", "--", "."])
-    st = subprocess.run(["git", "-C", "/repo", "status", "--porcelain", "--untracked-files=no"], stdout=subprocess.PIPE, text=True).stdout
+    subprocess.run(["git", "-C", REPO, "checkout", "--", "."])
+    st = subprocess.run(["git", "-C", REPO, "status", "--porcelain", "--untracked-files=no"], stdout=subprocess.PIPE, text=True).stdout
     if st.strip():
         print("WARNING: /repo not clean after undo:\n" + st)
 print(json.dumps(res, indent=1))
